@@ -72,6 +72,12 @@ func c09History(c *rt.Ctx, fsType string, h int) {
 	twin := newBase(fsType)
 	buildTree(base, rand.New(rand.NewPCG(seedA, seedB)), treeCfg(fsType), 30)
 	buildTree(twin, rand.New(rand.NewPCG(seedA, seedB)), treeCfg(fsType), 30)
+	// a file larger than the 32 KiB buffers of the library: what a read call returns must be a copy at every size (the
+	// executor overwrites every returned slice, the base snapshot would show it)
+	for _, v := range []avfs.VFS{base, twin} {
+		_ = v.MkdirAll("/w", 0o755)
+		_ = v.WriteFile("/w/huge", []byte(strings.Repeat("0123456789abcdef", []int{2048, 2500, 4096, 8192}[h%4])), 0o644)
+	}
 	ro := rofs.New(base)
 	var under avfs.VFS = ro
 	var ref avfs.VFS = twin
